@@ -6,8 +6,10 @@ Model:   specs/GenListing.tla.  Part 1 (P-layer): the three clauses over observa
          generate_all(is_dryrun, omit), the namespace-template look-up that can fail).  TLC checks I => P over the full option
          product (4 languages x generate-support x omit x namespace types x --templates x --support-templates x lookup x
          extension x stem) x all interleavings of the four modes (+ emptying the output directory), and, in a second
-         configuration, x one perturbed input class with run sequences long enough to establish influence.  Three switches
-         model the code as found; each must be refuted (negative controls = predictions of D1, D12, D15).
+         configuration, x directory-name shape (lookup folder named <root>+suffix / root named <lookup>+suffix as siblings, output
+         directory <root>_out) x one perturbed input class with run sequences long enough to establish influence.  Three switches
+         model the code as found, a fourth the hazard of telling own files from dependencies by a path-string prefix; each must
+         be refuted (negative controls = predictions of D1, D12, D15 and of the prefix mutation).
 spec->code: TLC emits one case per option combination (expected: rejected / succeeds / created classes / listed classes /
          influencer classes).  Every case is executed against the real CLI (`python -m nunavut`, one subprocess per invocation,
          private copy of $VERIF_REPO/src so that built-in templates can be perturbed) in all four modes on a scratch tree, with a
@@ -41,16 +43,16 @@ EXT_OVR = ".c08x"
 STEM_OVR = "c08ns"
 MARK = "C08PROBE"
 LANG_DEFAULT = {  # fall-back when the real language object cannot be asked (then a drift note is written)
-    "c": {"ext": ".h", "stem": "_namespace_", "sup": ["nunavut/support/serialization"], "supsrc": ["serialization.j2"]},
-    "cpp": {"ext": ".hpp", "stem": "_namespace_", "sup": ["nunavut/support/serialization"], "supsrc": ["serialization.j2"]},
-    "py": {"ext": ".py", "stem": "__init__", "sup": ["nunavut_support"], "supsrc": ["nunavut_support.j2"]},
-    "html": {"ext": ".html", "stem": "index", "sup": [], "supsrc": []},
+    "c": {"ext": ".h", "stem": "_namespace_", "sup_ser": ["nunavut/support/serialization"], "sup_type": [], "supsrc": ["serialization.j2"]},
+    "cpp": {"ext": ".hpp", "stem": "_namespace_", "sup_ser": ["nunavut/support/serialization"], "sup_type": [], "supsrc": ["serialization.j2"]},
+    "py": {"ext": ".py", "stem": "__init__", "sup_ser": [], "sup_type": ["nunavut_support"], "supsrc": ["nunavut_support.j2"]},
+    "html": {"ext": ".html", "stem": "index", "sup_ser": [], "sup_type": [], "supsrc": []},
 }
 SPEC_FACTS = {  # the language facts transcribed in GenListing.tla part 2
-    "c": {"ser": True, "stdns": False, "nstpl": False}, "cpp": {"ser": True, "stdns": False, "nstpl": False},
-    "py": {"ser": True, "stdns": True, "nstpl": True}, "html": {"ser": False, "stdns": True, "nstpl": True},
+    "c": {"ser": True, "tsup": False, "stdns": False, "nstpl": False}, "cpp": {"ser": True, "tsup": False, "stdns": False, "nstpl": False},
+    "py": {"ser": False, "tsup": True, "stdns": True, "nstpl": True}, "html": {"ser": False, "tsup": False, "stdns": True, "nstpl": True},
 }
-TRACE_CONSTANTS = {"Langs": '{"c"}', "Exts": '{"def"}', "Stems": '{"def"}', "SupTpls": "{FALSE}", "NsVals": "{FALSE}", "Wipes": "FALSE",
+TRACE_CONSTANTS = {"Langs": '{"c"}', "Exts": '{"def"}', "Stems": '{"def"}', "SupTpls": "{FALSE}", "NsVals": "{FALSE}", "Shapes": '{"plain"}', "OwnByPrefix": "FALSE", "Wipes": "FALSE",
                    "PFiles": "{}", "MaxLo": 0, "MaxLi": 0, "MaxDry": 0, "MaxRun": 0, "Linear": "FALSE", "QuickOnly": "FALSE",
                    "FwdOmitToList": "TRUE", "ListDeps": "TRUE", "ListUserSup": "TRUE"}
 
@@ -93,8 +95,27 @@ def user_sup_tpl(facts):
     return d
 
 
-def fixture_nsset(lookup):
-    return {"root": "vnd", "rootfiles": FIX_ROOT_LOOKUP if lookup else FIX_ROOT, "lookups": [{"root": "dep", "files": FIX_LOOKUP}] if lookup else []}
+SHAPES = {  # GenListing!ShapeOf: name of the lookup root, its parent folder below in/, the output directory
+    "plain": ("dep", "lookup0", "out"),
+    "sibling": ("vndx", "dsdl", "in/dsdl/vnd_out"),  # in/dsdl/vnd + in/dsdl/vndx (+ in/dsdl/vnd_out)
+    "rsibling": ("vn", "dsdl", "in/dsdl/vnd_out"),  # in/dsdl/vn + in/dsdl/vnd
+}
+
+
+def fixture_nsset(lookup, shape="plain"):
+    name, parent, out = SHAPES[shape]
+    ren = lambda d: {k.replace("dep/", name + "/", 1) if k.startswith("dep/") else k: v.replace("dep.", name + ".") for k, v in d.items()}
+    return {"root": "vnd", "rootfiles": ren(FIX_ROOT_LOOKUP) if lookup else FIX_ROOT, "out": out,
+            "lookups": [{"root": name, "dir": parent, "files": ren(FIX_LOOKUP)}] if lookup else []}
+
+
+def lk_dir(i, lk):
+    return lk.get("dir", "lookup%d" % i)
+
+
+def input_prefixes(nsset):
+    """(prefix of the root namespace's files, [prefixes of the lookup roots]) relative to the sandbox"""
+    return "in/dsdl/%s/" % nsset["root"], ["in/%s/%s/" % (lk_dir(i, lk), lk["root"]) for i, lk in enumerate(nsset["lookups"])]
 
 
 # ------------------------------------------------------------------------------------------------ language facts
@@ -112,10 +133,12 @@ def lang_facts(ctx, lang):
 
         tl = LanguageContextBuilder(include_experimental_languages=True).set_target_language(lang).create().get_target_language()
         res = sorted(pathlib.Path(p) for p in tl.get_support_files(ResourceType.SERIALIZATION_SUPPORT))
+        rest = sorted(pathlib.Path(p) for p in tl.get_support_files(ResourceType.TYPE_SUPPORT))
         sub = [x for x in tl.support_namespace if x]
-        f = {"ext": tl.extension, "stem": tl.namespace_output_stem, "sup": ["/".join(sub + [p.stem]) for p in res], "supsrc": [p.name for p in res]}
+        f = {"ext": tl.extension, "stem": tl.namespace_output_stem, "sup_ser": ["/".join(sub + [p.stem]) for p in res],
+             "sup_type": ["/".join(sub + [p.stem]) for p in rest], "supsrc": [p.name for p in res + rest]}
         tdir = REPO / "src" / "nunavut" / "lang" / lang / "templates"
-        real = {"ser": bool(res), "stdns": bool(tl.has_standard_namespace_files),
+        real = {"ser": bool(res), "tsup": bool(rest), "stdns": bool(tl.has_standard_namespace_files),
                 "nstpl": (tdir / "Namespace.j2").exists() or (tdir / "Any.j2").exists()}
         if real != SPEC_FACTS[lang]:
             ctx.drift("language facts of %s differ from GenListing.tla part 2: tree %r, spec %r" % (lang, real, SPEC_FACTS[lang]))
@@ -168,22 +191,25 @@ class Sandbox:
         (self.root / "cwd").mkdir()
         self.env = {k: v for k, v in os.environ.items() if k not in ("DSDL_INCLUDE_PATH", "PYTHONPATH", "NUNAVUT_VERIF")}
         self.env.update({"PYTHONPATH": str(self.root / "src"), "PYTHONDONTWRITEBYTECODE": "1", "PYTHONHASHSEED": "0"})
-        self.cpu = 0.0
         self.nruns = 0
+        self.outrel = "out"
+        self.out = self.root / "out"
         self._src_rest = None
 
     # -- inputs of one history
     def install(self, nsset, lang, facts):
         d = self.root / "in"
+        self.wipe()
         if d.exists():
             shutil.rmtree(d)
-        self.wipe()
+        self.outrel = nsset.get("out", "out")
+        self.out = self.root / self.outrel
         files = {}
         for rel, txt in nsset["rootfiles"].items():
             files["dsdl/" + rel] = txt
         for i, lk in enumerate(nsset["lookups"]):
             for rel, txt in lk["files"].items():
-                files["lookup%d/%s" % (i, rel)] = txt
+                files["%s/%s" % (lk_dir(i, lk), rel)] = txt
         for rel, txt in USER_TPL.items():
             files["tpl/" + rel] = txt
         for rel, txt in user_sup_tpl(facts).items():
@@ -195,22 +221,22 @@ class Sandbox:
         self.lang = lang
 
     def wipe(self):
-        o = self.root / "out"
+        o = self.out
         if o.exists():
             for dp, dn, fn in os.walk(o):
                 os.chmod(dp, 0o755)
             shutil.rmtree(o)
 
     def mkout(self):
-        (self.root / "out").mkdir(exist_ok=True)
+        self.out.mkdir(exist_ok=True)
 
     # -- observation
     def snapshot(self):
         """{relpath: (kind, zone, attrs)}; the part of src/ outside lang/<lang> is folded into one entry"""
         snap = {}
-        for top in ("in", "cwd", "out"):
+        for top in ("in", "cwd") + (() if self.outrel.startswith("in/") else (self.outrel,)):
             for rel, st in _walk(str(self.root), top):
-                snap[rel] = self._entry(rel, st, 1 if top == "out" else 0)
+                snap[rel] = self._entry(rel, st, 1 if self.in_out(rel) else 0)
         langdir = "src/nunavut/lang/" + self.lang
         for rel, st in _walk(str(self.root), langdir):
             snap[rel] = self._entry(rel, st, 0)
@@ -224,6 +250,9 @@ class Sandbox:
         snap["."] = (0, 0, ("dir", stat.S_IMODE(st.st_mode), tuple(sorted(os.listdir(self.root)))))
         return snap
 
+    def in_out(self, rel):
+        return rel == self.outrel or rel.startswith(self.outrel + "/")
+
     def _entry(self, rel, st, zone):
         p = os.path.join(self.root, rel)
         if stat.S_ISREG(st.st_mode):
@@ -236,7 +265,7 @@ class Sandbox:
 
     def out_digest(self):
         h = hashlib.sha256()
-        o = str(self.root / "out")
+        o = str(self.out)
         for rel, st in _walk(o):
             if stat.S_ISREG(st.st_mode):
                 h.update(rel.encode() + b"\0" + _sha_file(os.path.join(o, rel)).encode() + b"\n")
@@ -303,12 +332,13 @@ def candidates(sb, case):
     """every template / DSDL file (and non-.j2 file of a template directory) that could conceivably matter: (relpath, class)"""
     res = []
     o = case["o"]
+    rootp, lkps = input_prefixes(case["nsset"])
     for rel, st in _walk(str(sb.root), "in"):
-        if not stat.S_ISREG(st.st_mode):
+        if not stat.S_ISREG(st.st_mode) or sb.in_out(rel):
             continue
-        if rel.startswith("in/dsdl/"):
+        if rel.startswith(rootp):
             res.append((rel, "dsdl:root"))
-        elif rel.startswith("in/lookup"):
+        elif any(rel.startswith(p) for p in lkps):
             if o["lookup"]:
                 res.append((rel, "dsdl:lookup"))
         elif rel.startswith("in/tpl/"):
@@ -331,7 +361,7 @@ def candidates(sb, case):
 def build_argv(sb, case, mode):
     o = case["o"]
     x = case.get("x", {})
-    out = "../out" if x.get("outrel") else str(sb.root / "out")
+    out = os.path.relpath(str(sb.out), str(sb.root / "cwd")) if x.get("outrel") else str(sb.out)
     a = ["--target-language", o["lang"], "--experimental-languages", "--outdir", out]
     if o["gs"] != "as-needed" or not x.get("gs_default"):
         a += ["--generate-support", o["gs"]]
@@ -348,7 +378,7 @@ def build_argv(sb, case, mode):
     if o["stem"] == "ovr":
         a += ["--namespace-output-stem", STEM_OVR]
     env = {}
-    lks = [str(sb.root / "in" / ("lookup%d" % i) / lk["root"]) for i, lk in enumerate(case["nsset"]["lookups"])] if o["lookup"] else []
+    lks = [str(sb.root / "in" / lk_dir(i, lk) / lk["root"]) for i, lk in enumerate(case["nsset"]["lookups"])] if o["lookup"] else []
     if x.get("envlookup") and lks:
         env["DSDL_INCLUDE_PATH"] = os.pathsep.join(lks)
     else:
@@ -369,6 +399,7 @@ class History:
         self.pert = set()
         self.notes = []
         self.unstable = False
+        self.outrel = case["nsset"].get("out", "out")
 
     def _enc(self, snap):
         return [[self.pid(rel), self.aid(e[2]), e[0], e[1]] for rel, e in sorted(snap.items())]
@@ -497,21 +528,22 @@ def select_probes(ctx, sb, case, listed, policy):
 
 
 # ------------------------------------------------------------------------------------------------ predictions (I-layer) -> concrete
-def concrete_outputs(ctx, case):
+def concrete_outputs(ctx, case, ignore_omit=False):
     """the I-layer's file classes for this namespace set: {'type': set(relpaths), 'ns': ..., 'sup': ...} relative to out/"""
     o = case["o"]
     f = lang_facts(ctx, o["lang"])
     ext = EXT_OVR if o["ext"] == "ovr" else f["ext"]
     stem = STEM_OVR if o["stem"] == "ovr" else f["stem"]
     types, nss = set(), set()
+    out = case["nsset"].get("out", "out")
     for rel in case["nsset"]["rootfiles"]:
         d, n = rel.rsplit("/", 1)
         m = re.match(r"^(?:\d+\.)?([A-Za-z_]\w*)\.(\d+)\.(\d+)\.(?:dsdl|uavcan)$", n)
-        types.add("out/%s/%s_%s_%s%s" % (d, m.group(1), m.group(2), m.group(3), ext))
+        types.add("%s/%s/%s_%s_%s%s" % (out, d, m.group(1), m.group(2), m.group(3), ext))
         parts = d.split("/")
         for i in range(1, len(parts) + 1):
-            nss.add("out/%s/%s%s" % ("/".join(parts[:i]), stem, ext))
-    return {"type": types, "ns": nss, "sup": set("out/%s%s" % (s, ext) for s in f["sup"])}
+            nss.add("%s/%s/%s%s" % (out, "/".join(parts[:i]), stem, ext))
+    return {"type": types, "ns": nss, "sup": set("%s/%s%s" % (out, s, ext) for s in ([] if o["omit"] and not ignore_omit else f["sup_ser"]) + f["sup_type"])}
 
 
 def kind_of_output(ctx, case, rel):
@@ -519,7 +551,7 @@ def kind_of_output(ctx, case, rel):
     for k in ("sup", "ns", "type"):
         if rel in c[k]:
             return {"sup": "support", "ns": "namespace", "type": "type"}[k]
-    if not rel.startswith("out/"):
+    if not rel.startswith(case["nsset"].get("out", "out") + "/"):
         return "outside-outdir"
     return "support" if "nunavut" in rel else "other"
 
@@ -572,7 +604,7 @@ def explain(ctx, case, h, clauses):
                 # a directory whose only change is its mtime follows from a child being created/deleted: name the children first
                 prim = [c[:2] for c in r["changes"] if not (c[0] == "modified" and c[2])] or [c[:2] for c in r["changes"]]
                 what = prim[0]
-                zone = "outdir" if what[1].startswith("out") else "cwd" if what[1].startswith("cwd") else "inputs"
+                zone = "outdir" if (what[1] + "/").startswith(h.outrel + "/") else "cwd" if what[1].startswith("cwd") else "inputs"
                 state = "populated" if r["populated"] else "empty"
                 res.append(("C08|list.passive_no_effect|%s|%s:%s|%s" % ({"lo": "list-outputs", "li": "list-inputs", "dry": "dry-run"}[r["m"]], what[0], zone, state),
                             "%s changed the disk: %s [%s %s]" % (r["m"], prim[:4], o["lang"], opt_tag(o))))
@@ -583,8 +615,15 @@ def explain(ctx, case, h, clauses):
         found = False
         for pr in (r for r in h.raw if r["m"] == "probe"):
             if pr["influences"] and not pr["listed"]:
-                res.append(("C08|list.inputs_cover|%s" % pr["class"],
-                            "editing %s changes the generated files but --list-inputs does not name it [%s %s]" % (pr["file"], o["lang"], opt_tag(o))))
+                shape = ""
+                if pr["class"] == "dsdl:lookup":  # textual relation of the two directory paths (a different failure class each)
+                    rootp, lkps = input_prefixes(case["nsset"])
+                    lp = next((x for x in lkps if pr["file"].startswith(x)), "")
+                    shape = "|root-dir-is-prefix-of-lookup-dir" if lp.startswith(rootp[:-1]) else \
+                            "|lookup-dir-is-prefix-of-root-dir" if lp and rootp.startswith(lp[:-1]) else "|unrelated-dir-names"
+                res.append(("C08|list.inputs_cover|%s%s" % (pr["class"], shape),
+                            "editing %s changes the generated files but --list-inputs does not name it [%s %s; root namespace folder in/dsdl/%s]"
+                            % (pr["file"], o["lang"], opt_tag(o), case["nsset"]["root"])))
                 found = True
         if not found:
             res.append(("C08|list.inputs_cover|unexplained", "an input that influences the output is not listed"))
@@ -604,7 +643,8 @@ def compare_predictions(ctx, case, h, exp, exp_found=None, drift=None, variant=N
     exp_found = exp_found or exp
     variant = variant if variant is not None else {}
     o = case["o"]
-    tag = "%s %s ext=%s stem=%s lookup=%s" % (o["lang"], opt_tag(o), o["ext"], o["stem"], o["lookup"])
+    tag = "%s %s ext=%s stem=%s lookup=%s shape=%s" % (o["lang"], opt_tag(o), o["ext"], o["stem"], o["lookup"], o.get("shape", "plain"))
+    rootp, lkps = input_prefixes(case["nsset"])
     raws = [r for r in h.raw if r["m"] != "probe"]
     runs = [r for r in raws if r["m"] == "run" and not r["ver"]]
     if exp["rejected"]:
@@ -624,7 +664,8 @@ def compare_predictions(ctx, case, h, exp, exp_found=None, drift=None, variant=N
         drift("I-layer: files created for %s: predicted %s, observed differs by %s" % (tag, sorted(exp["created"]), sorted(created ^ want)[:4]))
     los = [r for r in raws if r["m"] == "lo"]
     if los and los[0]["rc"] == 0:
-        wants = [set().union(*[conc[k] for k in e["lo"]]) if e["lo"] else set() for e in (exp, exp_found)]
+        # (as found, the omit flag did not reach the support generator when listing)
+        wants = [set().union(*[c[k] for k in e["lo"]]) if e["lo"] else set() for e, c in ((exp, conc), (exp_found, concrete_outputs(ctx, case, True)))]
         listed = set(los[0]["listed"])
         if wants[0] != wants[1] and listed in wants:
             variant.setdefault("FwdOmitToList", set()).add(listed == wants[0])
@@ -638,8 +679,8 @@ def compare_predictions(ctx, case, h, exp, exp_found=None, drift=None, variant=N
                "tplU": lambda p: p.startswith("in/tpl/") and p.endswith(".j2"),
                "supB": lambda p: p.startswith("src/nunavut/lang/%s/support/" % o["lang"]),
                "supU": lambda p: p.startswith("in/suptpl/"),
-               "dsdlR": lambda p: p.startswith("in/dsdl/") and p.endswith(".dsdl"),
-               "dsdlD": lambda p: p.startswith("in/lookup") and p.endswith(".dsdl") and not p.endswith("Unused.1.0.dsdl")}
+               "dsdlR": lambda p: p.startswith(rootp) and p.endswith(".dsdl"),
+               "dsdlD": lambda p: any(p.startswith(x) for x in lkps) and p.endswith(".dsdl") and not p.endswith("Unused.1.0.dsdl")}
         seen = set(k for k, f in cls.items() if any(f(p) for p in got))
         pred, predf = set(exp["li"]), set(exp_found["li"])
         # per switch: the classes it moves must follow one of the two settings; everything else must be as predicted
@@ -676,7 +717,7 @@ def plan_for(ctx, exp, idx, tier_quick):
     plan += [["lo"], ["li"], ["dry"], ["run"]]
     if exp["rejected"]:
         return [[["lo"], ["run"]], [["li"], ["run"]], [["dry"], ["run"]], [["run"]]][idx % 4]
-    if (not tier_quick and idx % 2 == 0) or (tier_quick and idx % 5 == 0):
+    if (not tier_quick and idx % 2 == 0) or (tier_quick and idx % 6 == 0):
         plan += [["lo"], ["li"], ["dry"]]
     if exp["probe_q"] if tier_quick else exp["probe_t"]:
         plan.append(["probes", {"unlisted_per_class": 3 if tier_quick else 99, "unlikely_per_class": 1 if tier_quick else 3,
@@ -717,7 +758,9 @@ def random_nsset(rng):
         return "@extent %d" % ext, ext + 48
 
     nlook = rng.choice([0, 1, 1, 2, 3])
-    roots = ["lk%s" % "abc"[i] for i in range(nlook)]
+    # directory-name shape: unrelated names in separate folders, or siblings of the root "rt" whose names extend / are extended by it
+    related = rng.random() < 0.5
+    roots = (rng.sample(["rtx", "rt_b", "r", "rt2"], nlook) if related else ["lk%s" % "abc"[i] for i in range(nlook)])
     sets = []
     later = []  # (type reference, size bound) defined in later lookup roots
     for ri in reversed(range(nlook)):
@@ -730,7 +773,7 @@ def random_nsset(rng):
             rel = "/".join(x for x in (roots[ri], sub) if x) + "/%s.1.%d.dsdl" % (name, ti % 2)
             files[rel] = "\n".join(body + [e]) + "\n"
             mine.append((".".join(x for x in [roots[ri]] + (sub.split("/") if sub else []) if x) + ".%s.1.%d" % (name, ti % 2), ub))
-        sets.insert(0, {"root": roots[ri], "files": files})
+        sets.insert(0, dict({"root": roots[ri], "files": files}, **({"dir": "dsdl"} if related else {})))
         later = mine + later
     root = "rt"
     files, mine = {}, []
@@ -754,7 +797,7 @@ def random_nsset(rng):
         files[rel] = "\n".join(body) + "\n"
         if kind != "service":
             mine.append((".".join([root] + (sub.split("/") if sub else [])) + ".%s.%d.%d" % (name, 1 + ti % 2, ti % 3), ub))
-    return {"root": root, "rootfiles": files, "lookups": sets}
+    return {"root": root, "rootfiles": files, "lookups": sets, "out": rng.choice(["in/dsdl/rt_out", "in/dsdl/rtout", "out"]) if related else "out"}
 
 
 def random_case(rng, cid):
@@ -885,7 +928,7 @@ def account(ctx, cases, results):
 
 def to_case(exp, idx, ctx):
     o = exp["o"]
-    return {"id": idx, "kind": "model", "o": o, "x": {}, "nsset": fixture_nsset(o["lookup"]), "plan": plan_for(ctx, exp, idx, ctx.quick),
+    return {"id": idx, "kind": "model", "o": o, "x": {}, "nsset": fixture_nsset(o["lookup"], o.get("shape", "plain")), "plan": plan_for(ctx, exp, idx, ctx.quick),
             "expect_rejected": exp["rejected"]}
 
 
@@ -896,11 +939,12 @@ def run(ctx):
                     constants="4 languages x gs x omit x ns x tpl x suptpl x lookup x ext x stem; all interleavings of lo/li/dry/run (+wipe), "
                               "MaxLo/Li/Dry/Run=%s" % ctx.pick("1/1/1/2", "2/1/2/2"))
     tlc.check_model(ctx, "GenListing", ctx.pick("GenListing_infl", "GenListing_inflbig"), timeout=3000,
-                    constants="%s x option product (ext, stem default) x one perturbed input class of 8 x li + up to 4 runs" % ctx.pick("languages {c, html}, ns off", "4 languages"))
+                    constants="%s x option product (ext, stem default) x directory-name shape (3, where there is a lookup) x one perturbed input class of 8 x li + up to 4 runs" % ctx.pick("languages {c, html}, ns off", "4 languages"))
     controls = []
     for cfg, inv, what in (("GenListing_d1", "RefinesOutputs", "omit_serialization_support not forwarded by _list_outputs_only (D1)"),
                            ("GenListing_d12", "RefinesInputs", "lookup-dir dependencies not named by _list_inputs_only (D12)"),
                            ("GenListing_d15", "RefinesInputs", "shadowing --support-templates file not named by _list_inputs_only (D15)"),
+                           ("GenListing_prefix", "RefinesInputs", "own files told from dependencies by a path-string prefix: a lookup folder named <root>+suffix vanishes (hazard OwnByPrefix)"),
                            ("GenListing_vac1", "NeverInfluence", "influence can be established in the model (vacuity guard)"),
                            ("GenListing_vac2", "NeverPopulatedPassive", "passive modes run on a populated directory in the model (vacuity guard)")):
         neg = tlc.run_tlc(tlc.SPECS / "GenListing.tla", tlc.SPECS / (cfg + ".cfg"), ctx.scratch, timeout=1800)
@@ -916,7 +960,7 @@ def run(ctx):
     found = {json.dumps(e["o"], sort_keys=True): e for e in found}
     if len(found) != len(exps):
         raise MachineryFailure("the two emissions enumerate different option combinations")
-    if len(exps) < ctx.pick(500, 2000):
+    if len(exps) < ctx.pick(500, 2300) or len(set(e["o"]["shape"] for e in exps if e["probe_q" if ctx.quick else "probe_t"] and e["o"]["lookup"])) < 3:
         raise MachineryFailure("too few cases emitted: %d" % len(exps))
     if not all(e["accept"] for e in exps):
         raise MachineryFailure("emitted case not accepted by P in the repaired model")
@@ -968,7 +1012,7 @@ def run(ctx):
     run_and_judge(ctx, pool, amb)
 
     # ---- 4. code -> spec: random namespace sets x random options x shuffled mode order
-    n_rand = ctx.pick(40, 400)
+    n_rand = ctx.pick(32, 400)
     rcases = [random_case(ctx.rng, 200000 + i) for i in range(n_rand)]
     rhs, _ = run_and_judge(ctx, pool, rcases)
     indom = sum(1 for h in rhs if any(x["m"] == "run" and x["rc"] == 0 for x in h.raw))
@@ -991,7 +1035,7 @@ def run(ctx):
                        "for a share, populated output directories) + metamorphic influence probes where the model asks; code->spec: %d seeded random "
                        "namespace sets x random options x shuffled mode order; all histories judged by GenListingTrace.tla; distinct = option "
                        "combination (+ namespace-set hash for random ones) and (language, options, candidate class, influences?) per probe; "
-                       "non-trivial = generation succeeded" % (ctx.pick("quick subset InQuick: 448 valid of 1792", "full product: 1792 valid"), n_rand))
+                       "non-trivial = generation succeeded" % (ctx.pick("quick subset InQuick: 448 valid of 1792, one directory-name shape each", "full product: 1792 valid, one directory-name shape each + 224 with the other shapes"), n_rand))
     ctx.cov["exhaustive"] = False
     ctx.assumptions += ["TLC and the GenListing / GenListingTrace specifications",
                         "the snapshot (type, size, mtime_ns, mode, sha256, link target; not atime) sees every effect on disk inside the scratch tree; "
@@ -1002,6 +1046,7 @@ def run(ctx):
                         "language facts (support resources, standard namespace files, built-in Namespace template) transcribed in the I-layer are "
                         "compared with the tree on every run (drift note on mismatch)"]
     ctx.not_exercised("--pp-run-program, --configuration files, --list-configuration; js target (no templates)")
+    ctx.not_exercised("a lookup root nested inside the root namespace folder (PyDSDL rejects it: NestedRootNamespaceError)")
     ctx.not_exercised("effects of a passive mode outside the scratch tree (e.g. in $HOME or /tmp)")
     ctx.cov["phase_wall_s"] = round(time.time() - t0, 1)
 
